@@ -11,7 +11,7 @@ one() {
   if ! (cd "$tmp" && patch -s -p1 --no-backup-if-mismatch < "/verif/$d/patch.diff" >/dev/null 2>&1); then
     echo "$(basename $d): PATCH-DOES-NOT-APPLY"; rm -rf "$tmp"; return
   fi
-  /verif/bin/mgcheck all quick -repo "$tmp" -quiet > "/verif/$d/matrix.txt" 2>&1
+  ${MGBIN:-/verif/bin/mgcheck} all quick -repo "$tmp" -quiet > "/verif/$d/matrix.txt" 2>&1
   rm -rf "$tmp"
   python3 - "/verif/$d" <<'PY'
 import json,sys,re,os
